@@ -22,9 +22,19 @@ E5  array evaluation (list / ndarray, float / int elements, every length 1..50) 
     container object evaluated, changed IN PLACE (shift T += dT, reverse, one element moved
     across a break, slice assignment), evaluated again; two live containers evaluated
     alternately with scalars in between; the getter must leave the caller's container untouched
+Two further strata re-use these oracles: (a) *live edits* -- coefficient arrays (a_low, a_high, Shomate a,
+SingleNasa9 a, the array get_a returns) edited in place or re-assigned, T_mid / T_low / T_high / units
+re-assigned, NASA-9 bounds moved through the nested segment objects, the segment list edited in place
+(replace, append) or re-assigned; after every edit E1/E3/E5/E4 (and one E2) are evaluated against the
+reference of the species as the object now reports itself through its public attributes; (b)
+*non-default conditions* -- the same coefficient set built as a gas (pMuTT attaches its pressure
+adjustment) and evaluated at a pressure P, optionally with a coverage model and a coverage x, the
+conditions handed identically to every getter: only the relations E3, E5, E2 are asserted there (the
+size of the pressure / coverage term itself is C13's).
 INV online invariants at sys.monitoring return hooks: Nasa.get_a returns a_high iff
     T >= T_mid; Nasa9._get_nasa returns a SingleNasa9 whose bounds contain T.
 """
+import json
 import math
 import random
 
@@ -33,17 +43,22 @@ from vf.gen import species as S
 from vf.ref import poly, quad
 
 ID = 'C02'
-N = {'quick': 7000, 'thorough': 200000}
+N = {'quick': 5500, 'thorough': 150000}
 NT_RULE = ('case = one NASA-7 / NASA-9 (1-4 segments, optionally with a gap) / Shomate (every unit '
            'accepted by constants.R) species with arbitrary or realistic coefficients drawn per case '
            'index from a seeded PRNG after a list of directed cases, plus explicit scalar (float, int), '
            'array (list, ndarray, length 1-50) temperatures, in-place edit histories of one re-used '
-           'temperature container, sub-intervals and graded out-of-range temperatures; non-trivial = >=1 temperature on or adjacent (1 ulp / 1e-9 relative) to a '
+           'temperature container, edit histories of the live species, gas-phase / coverage conditions, '
+           'sub-intervals and graded out-of-range temperatures; non-trivial = >=1 temperature on or adjacent (1 ulp / 1e-9 relative) to a '
            'break, or an array of length >=2; distinct = distinct canonical JSON of the case')
 REQUIRED_ORACLES = ['E1', 'E2', 'E3', 'E4', 'E5']
 UNITS_DOC = ['J/mol/K', 'kJ/mol/K', 'cal/mol/K', 'kcal/mol/K', 'eV/K', 'Eh/K', 'Ha/K', 'L atm/mol/K',
              'cm3 atm/mol/K', 'm3 Pa/mol/K', 'L kPa/mol/K', 'L bar/mol/K', 'cm3 kPa/mol/K',
              'm3 bar/mol/K']
+EDIT_OPS_REQ = {'Nasa': ['coef_inplace', 'coef_scale', 'get_a_inplace', 'coef_assign', 'T_mid', 'T_bounds'],
+                'Nasa9': ['seg_bounds', 'seg_bound_one', 'seg_coef_inplace', 'seg_coef_assign', 'seg_replace',
+                          'seg_append', 'nasas_assign'],
+                'Shomate': ['coef_inplace', 'coef_scale', 'coef_assign', 'units', 'T_bounds']}
 REQUIRED_CLASSES = (['Nasa', 'Nasa9', 'Shomate', 'style:arbitrary', 'style:realistic', 'style:unit',
                      'T:on_T_mid', 'T:T_mid-1ulp', 'T:T_mid+1ulp', 'T:T_mid*(1-1e-9)', 'T:T_mid*(1+1e-9)',
                      'T:T_low', 'T:T_high', 'T:interior',
@@ -58,6 +73,8 @@ REQUIRED_CLASSES = (['Nasa', 'Nasa9', 'Shomate', 'style:arbitrary', 'style:reali
                     + ['%s:%s:%s' % (p, w, d) for p in ('out', 'out_arr') for w in ('below', 'above')
                        for d in ('1ulp', 'rel1e-12', 'rel1e-9', 'rel1e-6', 'abs1e-5', 'far')]
                     + ['out:gap:1ulp', 'out_arr:gap:1ulp']
+                    + ['edit:%s:%s' % (k, o) for k in ('Nasa', 'Nasa9', 'Shomate') for o in EDIT_OPS_REQ[k]]
+                    + ['cond:%s:%s' % (t, k) for t in ('gas_P', 'gas_P+cov') for k in ('Nasa', 'Nasa9', 'Shomate')]
                     + ['dtype:%s:%s' % (d, k) for d in ('int16', 'uint16', 'int32', 'uint32', 'int64', 'float32')
                        for k in ('Nasa', 'Nasa9', 'Shomate')]
                     + ['units:%s' % u for u in UNITS_DOC]
@@ -71,8 +88,14 @@ REQUIRED_PROBES = ['Nasa.get_a', 'Nasa9._get_nasa', 'Shomate._check_T',
                    'get_nasa9_CpoR', 'get_nasa9_HoRT', 'get_nasa9_SoR',
                    'get_shomate_CpoR', 'get_shomate_HoRT', 'get_shomate_SoR', 'get_shomate_GoRT']
 ASSUMPTIONS = [
-    "species are built with phase 'S' or None and no misc_models, so no pressure adjustment enters "
-    "(that clause is C13); S_elements is left at its default",
+    "the comparison with the reference basis (E1) uses species built with phase 'S' or None and no "
+    "misc_models; under non-default conditions (gas phase + P, coverage model + x) only the relations G=H-TS, "
+    "array==scalar and the integral forms at constant conditions are asserted -- the value of the pressure / "
+    "coverage term is C13's; S_elements is left at its default",
+    "live edits: the reference after an edit is built from what the object's public attributes report "
+    "(a_low, a_high, a, T_low, T_mid, T_high, units, nasas[i].T_low/T_high/a), so an implementation that "
+    "hands out copies is not accused; a temperature that the edited NASA-9 species no longer contains must "
+    "be refused; overlapping segments are never produced",
     "Shomate unit factor: the reference divides by pmutt.constants.R(units) (the table itself is C12); the "
     "polynomial basis, the t = T/1000 scaling and the kilo factor of H are independent (vf/ref/poly.py)",
     "a unit string that constants.R rejects is outside the quantifier ('any supported fitting unit'); "
@@ -408,7 +431,169 @@ _R_SI = {'J/mol/K': 8.3144598, 'kJ/mol/K': 8.3144598e-3, 'cal/mol/K': 1.9872036,
          'm3 bar/mol/K': 8.3144598e-5, 'inch3 psi/mol/K': 73.59}
 
 
-def _case(rng, sp, style, n_T=3, arrays=None, n_ivals=2, n_int=2, hist=None, dtypes=None):
+def _new_coeffs(rng, kind):
+    if kind == 'Nasa':
+        return S.gen_nasa7_coeffs(rng, style='arbitrary')
+    if kind == 'Nasa9':
+        return S.gen_nasa9_coeffs(rng, style='arbitrary')
+    return [float('%.8g' % v) for v in ([rng.uniform(-30, 30)] + [rng.uniform(-20, 20) for _ in range(3)]
+                                        + [rng.uniform(-2, 2)] + [rng.uniform(-300, 300) for _ in range(3)])]
+
+
+def _shadow_apply(cur, op):
+    """apply an edit operation to the generator's shadow copy of the species spec"""
+    name = op[0]
+    if name in ('coef_inplace', 'coef_scale'):
+        a = cur[op[1]]
+        a[op[2]] = op[3] if name == 'coef_inplace' else a[op[2]] * op[3]
+    elif name == 'get_a_inplace':
+        a = cur['a_high'] if op[1] >= cur['T_mid'] else cur['a_low']
+        a[op[2]] = op[3]
+    elif name == 'coef_assign':
+        cur[op[1]] = list(op[2])
+    elif name == 'attr':
+        cur[op[1]] = op[2]
+    elif name == 'seg_bounds':
+        cur['nasas'][op[1]]['T_high'] = op[2]
+        cur['nasas'][op[1] + 1]['T_low'] = op[2]
+    elif name == 'seg_bound_one':
+        cur['nasas'][op[1]][op[2]] = op[3]
+    elif name == 'seg_coef_inplace':
+        cur['nasas'][op[1]]['a'][op[2]] = op[3]
+    elif name == 'seg_coef_assign':
+        cur['nasas'][op[1]]['a'] = list(op[2])
+    elif name == 'seg_replace':
+        cur['nasas'][op[1]] = json.loads(json.dumps(op[2]))
+    elif name == 'seg_append':
+        cur['nasas'].append(json.loads(json.dumps(op[1])))
+    elif name == 'nasas_assign':
+        cur['nasas'] = json.loads(json.dumps(op[1]))
+
+
+EDIT_OPS = {'Nasa': ['coef_inplace', 'coef_scale', 'get_a_inplace', 'coef_assign', 'T_mid', 'T_bounds'],
+            'Nasa9': ['seg_bounds', 'seg_bound_one', 'seg_coef_inplace', 'seg_coef_assign', 'seg_replace',
+                      'seg_append', 'nasas_assign'],
+            'Shomate': ['coef_inplace', 'coef_scale', 'coef_assign', 'units', 'T_bounds']}
+
+
+def _make_edits(rng, sp, names=None):
+    """history of edits of the LIVE species (in-place element edits of coefficient arrays and of the
+    array get_a returns, re-assignments, bounds moved through the nested segment objects, the segment
+    list edited in place), each followed by temperatures drawn for the edited species:
+    [{'op': [...], 'T': [...], 'arr': {...}, 'out': [...]}, ...] + a final interval"""
+    kind = sp['type']
+    cur = json.loads(json.dumps(sp))
+    names = names or rng.sample(EDIT_OPS[kind], 2)
+    out = []
+    for name in names:
+        strip = []
+        op = None
+        if kind == 'Nasa':
+            which = rng.choice(['a_low', 'a_high'])
+            k = rng.randrange(7)
+            if name == 'coef_inplace':
+                op = ['coef_inplace', which, k, _new_coeffs(rng, kind)[k]]
+            elif name == 'coef_scale':
+                op = ['coef_scale', which, k, round(rng.uniform(0.5, 1.5), 3)]
+            elif name == 'get_a_inplace':
+                op = ['get_a_inplace', _rand_T(rng, cur), k, _new_coeffs(rng, kind)[k]]
+            elif name == 'coef_assign':
+                op = ['coef_assign', which, _new_coeffs(rng, kind)]
+            elif name == 'T_mid':
+                new = _rand_in(rng, cur['T_low'] + 5.0, cur['T_high'] - 5.0, 2)
+                strip = [_rand_in(rng, min(new, cur['T_mid']), max(new, cur['T_mid'])), cur['T_mid']]
+                op = ['attr', 'T_mid', new]
+            else:
+                if rng.random() < 0.5:
+                    op = ['attr', 'T_low', _rand_in(rng, 50.0, cur['T_mid'] - 5.0, 2)]
+                else:
+                    op = ['attr', 'T_high', _rand_in(rng, cur['T_mid'] + 5.0, 6000.0, 2)]
+        elif kind == 'Shomate':
+            k = rng.randrange(7)
+            if name == 'coef_inplace':
+                op = ['coef_inplace', 'a', k, _new_coeffs(rng, kind)[k]]
+            elif name == 'coef_scale':
+                op = ['coef_scale', 'a', k, round(rng.uniform(0.5, 1.5), 3)]
+            elif name == 'coef_assign':
+                op = ['coef_assign', 'a', _new_coeffs(rng, kind)]
+            elif name == 'units':
+                op = ['attr', 'units', rng.choice([u for u in UNITS_DOC if u != cur['units']])]
+            else:
+                mid = 0.5 * (cur['T_low'] + cur['T_high'])
+                if rng.random() < 0.5:
+                    op = ['attr', 'T_low', _rand_in(rng, 50.0, mid - 5.0, 2)]
+                else:
+                    op = ['attr', 'T_high', _rand_in(rng, mid + 5.0, 6000.0, 2)]
+        else:
+            ns = cur['nasas']
+            i = rng.randrange(len(ns))
+            k = rng.randrange(9)
+            via = rng.choice(['nasas', 'getitem'])
+            if name == 'seg_bounds' and len(ns) > 1:
+                i = rng.randrange(len(ns) - 1)
+                lo, hi = ns[i]['T_low'] + 3.0, ns[i + 1]['T_high'] - 3.0
+                old = ns[i]['T_high']
+                new = _rand_in(rng, lo, hi, 2)
+                strip = [_rand_in(rng, min(new, old), max(new, old)), old]
+                op = ['seg_bounds', i, new, via]
+            elif name in ('seg_bounds', 'seg_bound_one'):
+                # shrink the top of the range (or open a gap): what was inside is now refused
+                old = ns[i]['T_high']
+                new = _rand_in(rng, ns[i]['T_low'] + 3.0, old - 0.5, 2)
+                strip = [_rand_in(rng, new, old), old]
+                op = ['seg_bound_one', i, 'T_high', new, via]
+            elif name == 'seg_coef_inplace':
+                op = ['seg_coef_inplace', i, k, _new_coeffs(rng, kind)[k], via]
+            elif name == 'seg_coef_assign':
+                op = ['seg_coef_assign', i, _new_coeffs(rng, kind), via]
+            elif name == 'seg_replace':
+                op = ['seg_replace', i, {'T_low': ns[i]['T_low'], 'T_high': ns[i]['T_high'],
+                                          'a': _new_coeffs(rng, kind)}]
+            elif name == 'seg_append' and ns[-1]['T_high'] <= 5900.0:
+                top = ns[-1]['T_high']
+                op = ['seg_append', {'T_low': top, 'T_high': _rand_in(rng, top + 20.0, 6000.0, 2),
+                                     'a': _new_coeffs(rng, kind)}]
+            else:
+                segs = json.loads(json.dumps(ns))
+                for sg in segs:
+                    sg['a'] = _new_coeffs(rng, kind)
+                if len(segs) > 1:
+                    j = rng.randrange(len(segs) - 1)
+                    b = _rand_in(rng, segs[j]['T_low'] + 3.0, segs[j + 1]['T_high'] - 3.0, 2)
+                    strip = [_rand_in(rng, min(b, segs[j]['T_high']), max(b, segs[j]['T_high']))]
+                    segs[j]['T_high'] = b
+                    segs[j + 1]['T_low'] = b
+                op = ['nasas_assign', segs]
+        _shadow_apply(cur, op)
+        Ts = [_rand_T(rng, cur), _rand_T(rng, cur)] + [b for b, _ in rng.sample(_breaks(cur), min(3, len(_breaks(cur))))]
+        Ts += strip                                  # may be outside the edited species: then refused (NASA-9)
+        ent = {'op': op, 'T': Ts, 'arr': _make_array(rng, cur, rng.randint(2, 8), elem='float')}
+        if kind == 'Nasa9':
+            ent['out'] = [o for o in _outside(cur, rng) if o[2] in ('1ulp', 'far')]
+        out.append(ent)
+    iv = rng.choice(_intervals(rng, cur, 1))
+    return {'steps': out, 'ival': [iv[0], iv[1]]}
+
+
+def _make_cond(rng, sp, cov=None):
+    """non-default conditions: the species built as a gas (pressure adjustment attached by pMuTT itself)
+    and evaluated at pressures P, optionally with a coverage model attached and a coverage x; the
+    conditions are handed identically to all getters"""
+    cov = rng.random() < 0.4 if cov is None else cov
+    iv = rng.choice(_intervals(rng, sp, 1)[1:] or _intervals(rng, sp, 1))
+    if iv[1] - iv[0] > 400.0:
+        iv = [iv[0], iv[0] + round(rng.uniform(1.0, 400.0), 2)]
+    c = {'P': [S.logu(rng, 1e-3, 1e3, 4), rng.choice([1.0, 25, S.logu(rng, 1e-3, 1e3, 4)])],
+         'T': [_rand_T(rng, sp)] + [b for b, _ in rng.sample(_breaks(sp), min(2, len(_breaks(sp))))],
+         'arr': _make_array(rng, sp, rng.randint(2, 6), elem='float'), 'ival': [iv[0], iv[1]], 'cov': None}
+    if cov:
+        bps = sorted({0.0, round(rng.uniform(0.1, 0.5), 2), round(rng.uniform(0.5, 0.9), 2)})
+        c['cov'] = {'intervals': bps, 'slopes': [round(rng.uniform(-3, 3), 2) for _ in bps],
+                    'x': round(rng.uniform(0.05, 1.0), 3)}
+    return c
+
+
+def _case(rng, sp, style, n_T=3, arrays=None, n_ivals=2, n_int=2, hist=None, dtypes=None, edits=None, cov=None):
     Ts = [_rand_T(rng, sp) for _ in range(n_T)]
     for lo, hi in _segments(sp):                     # at least one interior point per segment
         Ts.append(_rand_in(rng, lo, hi))
@@ -434,6 +619,8 @@ def _case(rng, sp, style, n_T=3, arrays=None, n_ivals=2, n_int=2, hist=None, dty
     case['hist'] = hist if hist is not None else [_make_history(rng, sp) for _ in range(rng.randint(1, 2))]
     case['alt'] = _make_alternation(rng, sp)
     case['dt'] = [_make_dtype(rng, sp, d) for d in (dtypes or rng.sample(DTYPES, 2))]
+    case['edits'] = _make_edits(rng, sp, edits)
+    case['cond'] = _make_cond(rng, sp, cov)
     return case
 
 
@@ -480,6 +667,17 @@ def directed(tier):
     sh_wide = dict(sh, T_high=5500.0)
     for sp in (n7, n9, sh_wide):
         D.append(_case(rng, dict(sp), 'arbitrary', dtypes=DTYPES))
+    # every live-edit operation for every class; gas-phase conditions with and without a coverage model
+    n9c = {'type': 'Nasa9', 'name': 'n9', 'phase': 'S',
+           'nasas': [{'T_low': 200.0 + 1800.0 * i, 'T_high': 2000.0 + 1800.0 * i,
+                      'a': S.gen_nasa9_coeffs(rng, style='arbitrary')} for i in range(3)]}
+    for sp in (n7, n9c, sh):
+        ops = EDIT_OPS[sp['type']]
+        D.append(_case(rng, json.loads(json.dumps(sp)), 'arbitrary', edits=ops, cov=True))
+        D.append(_case(rng, json.loads(json.dumps(sp)), 'arbitrary', edits=list(reversed(ops)), cov=False))
+    # the in-place coefficient idiom right after array calls, then the break moved through the segment objects
+    D.append(_case(rng, json.loads(json.dumps(n7)), 'arbitrary', edits=['coef_scale', 'get_a_inplace']))
+    D.append(_case(rng, json.loads(json.dumps(n9)), 'arbitrary', edits=['seg_bounds', 'seg_bound_one']))
     # NASA-9: 1-4 segments, contiguous and with a gap
     for nseg in (1, 2, 3, 4):
         for gap in (False, True):
@@ -659,6 +857,10 @@ class _Drv:
     def __init__(self, ctx, obj, model, cname):
         self.ctx, self.obj, self.model, self.cname = ctx, obj, model, cname
         self.sc = {}
+        self.kw = {}              # conditions handed identically to every getter (P, <name>_kwargs)
+        self.tag = {}             # extra mech entries ({'after': edit} / {'cond': ...})
+        self.relational = False   # True: no comparison with the reference basis (E1), relations only
+        self.mag = lambda T: 0.0  # magnitude of the condition dependent terms (rounding scale only)
 
     def scalar(self, q, T, oracle):
         """real scalar getter -> float | None (violation of `oracle` recorded)"""
@@ -666,8 +868,8 @@ class _Drv:
         key = (q, tk, T)
         if key in self.sc:
             return self.sc[key]
-        mech = {'class': self.cname, 'q': q, 'tkind': tk}
-        r = self.ctx.call(oracle, mech, getattr(self.obj, 'get_' + q), T=T)
+        mech = {**self.tag, 'class': self.cname, 'q': q, 'tkind': tk}
+        r = self.ctx.call(oracle, mech, getattr(self.obj, 'get_' + q), T=T, **self.kw)
         v = None
         if r is not core.NOVALUE:
             arr = _values(self.ctx, oracle, mech, r, 1)
@@ -687,13 +889,15 @@ class _Drv:
             got[q] = v
             if v is None:
                 continue
-            mech = {'class': self.cname, 'q': q, 'tkind': tk}
+            mech = {**self.tag, 'class': self.cname, 'q': q, 'tkind': tk}
+            if self.relational:
+                continue
             best = min(refs, key=lambda r: abs(v - r[q][0]) / r[q][1])
             ctx.close('E1', v, best[q][0], TOL_E1, mech, scale=best[q][1], T=T, where=where,
                       segments=[s for s, _ in self.model.candidates(float(T))])
         if None not in (got['GoRT'], got['HoRT'], got['SoR']):
             ctx.close('E3', got['GoRT'], got['HoRT'] - got['SoR'], TOL_E3,
-                      {'class': self.cname, 'tkind': tk}, scale=refs[0]['GoRT'][1], T=T)
+                      {**self.tag, 'class': self.cname, 'tkind': tk}, scale=refs[0]['GoRT'][1], T=T)
         return got
 
     def e5_array(self, arr):
@@ -704,9 +908,9 @@ class _Drv:
         n = len(Tl)
         got = {}
         for q in QS:
-            mech = {'class': self.cname, 'q': q, 'tkind': arr['kind'], 'elem': arr['elem']}
+            mech = {**self.tag, 'class': self.cname, 'q': q, 'tkind': arr['kind'], 'elem': arr['elem']}
             Tin = np.array(Tl) if arr['kind'] == 'ndarray' else list(Tl)
-            r = ctx.call('E5', mech, getattr(self.obj, 'get_' + q), T=Tin)
+            r = ctx.call('E5', mech, getattr(self.obj, 'get_' + q), T=Tin, **self.kw)
             if list(np.asarray(Tin).tolist()) != Tl:
                 ctx.extra['input_mutated'] = ctx.extra.get('input_mutated', 0) + 1
             if r is core.NOVALUE:
@@ -721,13 +925,13 @@ class _Drv:
                 if v is None:
                     break
                 want.append(v)
-                scale.append(self.model.ref(T)[0][q][1])
+                scale.append(self.model.ref(T)[0][q][1] + self.mag(T))
             else:
                 ctx.close('E5', vals, want, TOL_E5, mech, scale=np.array(scale), T=Tl, n=n)
         if all(q in got for q in ('GoRT', 'HoRT', 'SoR')):
-            scale = np.array([self.model.ref(T)[0]['GoRT'][1] for T in Tl])
+            scale = np.array([self.model.ref(T)[0]['GoRT'][1] + self.mag(T) for T in Tl])
             ctx.close('E3', got['GoRT'], got['HoRT'] - got['SoR'], TOL_E3,
-                      {'class': self.cname, 'tkind': arr['kind']}, scale=scale, T=Tl)
+                      {**self.tag, 'class': self.cname, 'tkind': arr['kind']}, scale=scale, T=Tl)
 
     def eval_same(self, T, kind, tag):
         """E5 (+E3) on THE GIVEN container object (no copy is made): every getter result equals the
@@ -739,8 +943,8 @@ class _Drv:
         n = len(snap)
         got = {}
         for q in QS:
-            mech = {'class': self.cname, 'q': q, 'tkind': kind, 'hist': tag}
-            r = ctx.call('E5', mech, getattr(self.obj, 'get_' + q), T=T)
+            mech = {**self.tag, 'class': self.cname, 'q': q, 'tkind': kind, 'hist': tag}
+            r = ctx.call('E5', mech, getattr(self.obj, 'get_' + q), T=T, **self.kw)
             now = [float(x) for x in T]
             if now != snap:
                 ctx.fail('E5', dict(mech, what='input_modified'), before=snap, after=now)
@@ -765,7 +969,7 @@ class _Drv:
         if all(q in got for q in ('GoRT', 'HoRT', 'SoR')):
             scale = np.array([self.model.ref(x)[0]['GoRT'][1] for x in snap])
             ctx.close('E3', got['GoRT'], got['HoRT'] - got['SoR'], TOL_E3,
-                      {'class': self.cname, 'tkind': kind, 'hist': tag}, scale=scale, T=snap)
+                      {**self.tag, 'class': self.cname, 'tkind': kind, 'hist': tag}, scale=scale, T=snap)
 
     def history(self, h):
         """evaluate, change the same container in place, evaluate again"""
@@ -822,8 +1026,8 @@ class _Drv:
 
     def _typed(self, q, T, typ, dt, oracle):
         """real scalar getter at the numpy-typed scalar typ(T) -> float | None"""
-        mech = {'class': self.cname, 'q': q, 'tkind': 'npscalar', 'dtype': dt}
-        r = self.ctx.call(oracle, mech, getattr(self.obj, 'get_' + q), T=typ(T))
+        mech = {**self.tag, 'class': self.cname, 'q': q, 'tkind': 'npscalar', 'dtype': dt}
+        r = self.ctx.call(oracle, mech, getattr(self.obj, 'get_' + q), T=typ(T), **self.kw)
         if r is core.NOVALUE:
             return None
         arr = _values(self.ctx, oracle, mech, r, 1)
@@ -833,7 +1037,7 @@ class _Drv:
         """integral forms on [T1, T2]; with typ/dt the end-point H and S are requested at the
         numpy-typed scalars typ(T1), typ(T2) (integer grids)"""
         ctx = self.ctx
-        mech = {'class': self.cname} if dt is None else {'class': self.cname, 'dtype': dt}
+        mech = {**self.tag, 'class': self.cname} if dt is None else {**self.tag, 'class': self.cname, 'dtype': dt}
         cache = {}
 
         class Abort(Exception):
@@ -911,18 +1115,18 @@ class _Drv:
                 if g is None:
                     continue
                 best = min(refs, key=lambda r: abs(g - r[q][0]) / r[q][1])
-                self._close(loose, 'E1', g, best[q][0], tol1, {'class': self.cname, 'q': q, 'tkind': 'npscalar',
+                self._close(loose, 'E1', g, best[q][0], tol1, {**self.tag, 'class': self.cname, 'q': q, 'tkind': 'npscalar',
                                                                'dtype': dt}, scale=best[q][1], T=x)
             typed[x] = got
             if None not in got.values():
                 ctx.close('E3', got['GoRT'], got['HoRT'] - got['SoR'], TOL_E3,
-                          {'class': self.cname, 'tkind': 'npscalar', 'dtype': dt}, scale=refs[0]['GoRT'][1], T=x)
+                          {**self.tag, 'class': self.cname, 'tkind': 'npscalar', 'dtype': dt}, scale=refs[0]['GoRT'][1], T=x)
         arr = np.array(vals, dtype=dt)
         xs = [float(x) for x in arr]
         res = {}
         for q in QS:
-            mech = {'class': self.cname, 'q': q, 'tkind': 'ndarray', 'elem': dt}
-            r = ctx.call('E5', mech, getattr(self.obj, 'get_' + q), T=arr)
+            mech = {**self.tag, 'class': self.cname, 'q': q, 'tkind': 'ndarray', 'elem': dt}
+            r = ctx.call('E5', mech, getattr(self.obj, 'get_' + q), T=arr, **self.kw)
             if r is core.NOVALUE:
                 continue
             out = _values(ctx, 'E5', mech, r, len(xs))
@@ -947,7 +1151,7 @@ class _Drv:
         if all(q in res for q in ('GoRT', 'HoRT', 'SoR')):
             scale = np.array([self.model.ref(x)[0]['GoRT'][1] for x in xs])
             ctx.close('E3', res['GoRT'], res['HoRT'] - res['SoR'], TOL_E3,
-                      {'class': self.cname, 'tkind': 'ndarray', 'elem': dt}, scale=scale, T=xs)
+                      {**self.tag, 'class': self.cname, 'tkind': 'ndarray', 'elem': dt}, scale=scale, T=xs)
         if ent.get('ival'):
             T1, T2 = ent['ival']
             self.e2_interval(float(T1), float(T2), typ=typ, dt=dt)
@@ -968,8 +1172,8 @@ class _Drv:
 
     def _cp_fast(self, x):
         """real scalar Cp getter at a quadrature node (not cached across the case)"""
-        mech = {'class': self.cname, 'q': 'CpoR', 'tkind': 'float'}
-        r = self.ctx.call('E2', mech, self.obj.get_CpoR, T=x)
+        mech = {**self.tag, 'class': self.cname, 'q': 'CpoR', 'tkind': 'float'}
+        r = self.ctx.call('E2', mech, self.obj.get_CpoR, T=x, **self.kw)
         if r is core.NOVALUE:
             return None
         arr = _values(self.ctx, 'E2', mech, r, 1)
@@ -1048,6 +1252,136 @@ def _single_nasa9(ctx, obj, sp, model, Ts, Ti):
                 vals = _values(ctx, 'E1', mech, r, 1)
                 if vals is not None:
                     ctx.close('E1', float(vals[0]), ref[q][0], TOL_E1, mech, scale=ref[q][1], T=T, segment=i)
+
+
+# ---------------------------------------------------------------- live edits and conditions
+def _seg_obj(obj, i, via):
+    return obj[i] if via == 'getitem' else obj.nasas[i]
+
+
+def _apply_edit(obj, op):
+    """perform the edit on the live pMuTT object exactly as a user would"""
+    import numpy as np
+    name = op[0]
+    if name == 'coef_inplace':
+        getattr(obj, op[1])[op[2]] = op[3]
+    elif name == 'coef_scale':
+        getattr(obj, op[1])[op[2]] *= op[3]
+    elif name == 'get_a_inplace':
+        a = obj.get_a(T=op[1])
+        a[op[2]] = op[3]
+    elif name == 'coef_assign':
+        setattr(obj, op[1], np.array(op[2], dtype=float))
+    elif name == 'attr':
+        setattr(obj, op[1], op[2])
+    elif name == 'seg_bounds':
+        _seg_obj(obj, op[1], op[3]).T_high = op[2]
+        _seg_obj(obj, op[1] + 1, op[3]).T_low = op[2]
+    elif name == 'seg_bound_one':
+        setattr(_seg_obj(obj, op[1], op[4]), op[2], op[3])
+    elif name == 'seg_coef_inplace':
+        _seg_obj(obj, op[1], op[4]).a[op[2]] = op[3]
+    elif name == 'seg_coef_assign':
+        _seg_obj(obj, op[1], op[3]).a = np.array(op[2], dtype=float)
+    else:
+        from pmutt.empirical.nasa import SingleNasa9
+        mk = lambda d: SingleNasa9(T_low=d['T_low'], T_high=d['T_high'], a=np.array(d['a'], dtype=float))
+        if name == 'seg_replace':
+            obj.nasas[op[1]] = mk(op[2])
+        elif name == 'seg_append':
+            obj.nasas.append(mk(op[1]))
+        elif name == 'nasas_assign':
+            obj.nasas = [mk(d) for d in op[1]]
+        else:
+            raise core.HarnessError('unknown edit %r' % (op,))
+
+
+def _reread(obj, kind, sp):
+    """species spec as the live object now reports it through its public attributes"""
+    fl = lambda v: [float(x) for x in v]
+    if kind == 'Nasa':
+        return dict(sp, T_low=float(obj.T_low), T_mid=float(obj.T_mid), T_high=float(obj.T_high),
+                    a_low=fl(obj.a_low), a_high=fl(obj.a_high))
+    if kind == 'Shomate':
+        return dict(sp, T_low=float(obj.T_low), T_high=float(obj.T_high), a=fl(obj.a), units=obj.units)
+    return dict(sp, nasas=[{'T_low': float(n.T_low), 'T_high': float(n.T_high), 'a': fl(n.a)} for n in obj.nasas])
+
+
+def _edits(ctx, obj, kind, sp, edits):
+    """after every edit of the live object: E1/E3 at scalars, E5/E3 on an array, E4 (NASA-9) against the
+    reference model of the species *as the object now reports itself*; one E2 interval at the end"""
+    from pmutt import constants as c
+    cur = sp
+    drv = None
+    for ent in edits.get('steps', []):
+        op = ent['op']
+        name = op[0] if op[0] != 'attr' else ('T_bounds' if op[1] in ('T_low', 'T_high') else op[1])
+        ctx.cls('edit:%s:%s' % (kind, name))
+        if ctx.call('E1', {'class': kind, 'step': 'edit:' + name}, _apply_edit, obj, op) is core.NOVALUE:
+            return
+        cur = _reread(obj, kind, cur)
+        model = _Model(cur, c.R(cur['units']) if kind == 'Shomate' else None)
+        drv = _Drv(ctx, obj, model, kind)
+        drv.tag = {'after': name}
+        for T in ent['T']:
+            T = float(T)
+            if model.candidates(T):
+                drv.e1_scalar(T)
+            elif kind == 'Nasa9':
+                for q in QS:
+                    ctx.raises('E4', (Exception,), {'class': kind, 'q': q, 'where': 'left_by_edit', 'after': name,
+                                                    'tkind': 'float'}, getattr(obj, 'get_' + q), T=T)
+        if all(model.candidates(float(T)) for T in ent['arr']['T']):
+            drv.e5_array(ent['arr'])
+        else:
+            ctx.extra['edit_not_reflected'] = ctx.extra.get('edit_not_reflected', 0) + 1
+        for o in ent.get('out', []):
+            if not model.candidates(float(o[0])):
+                for q in QS:
+                    ctx.raises('E4', (Exception,), {'class': kind, 'q': q, 'where': o[1], 'dist': o[2], 'after': name,
+                                                    'tkind': 'float'}, getattr(obj, 'get_' + q), T=float(o[0]))
+    if drv is not None and edits.get('ival'):
+        T1, T2 = float(edits['ival'][0]), float(edits['ival'][1])
+        c1, c2 = drv.model.candidates(T1), drv.model.candidates(T2)
+        if len(c1) == 1 and len(c2) == 1 and c1[0][0] == c2[0][0]:
+            drv.e2_interval(T1, T2)
+
+
+def _conditions(ctx, sp, kind, model, cond):
+    """E3, E5, E2 (relations only) for the same coefficient set built as a gas and evaluated at a
+    pressure, optionally with a coverage model attached; identical conditions to every getter"""
+    extra = {}
+    base = {}
+    tag = 'gas_P'
+    if cond.get('cov'):
+        from pmutt.mixture.cov import PiecewiseCovEffect
+        cv = cond['cov']
+        extra['misc_models'] = [PiecewiseCovEffect(name_i=sp['name'], name_j='B(S)', intervals=list(cv['intervals']),
+                                                   slopes=list(cv['slopes']))]
+        base['B(S)_kwargs'] = {'x': cv['x']}
+        tag = 'gas_P+cov'
+    ctx.cls('cond:%s:%s' % (tag, kind))
+    objg = ctx.call('E3', {'class': kind, 'step': 'construct', 'cond': tag}, S.build, dict(sp, phase='G'), **extra)
+    if objg is core.NOVALUE:
+        return
+    for n, P in enumerate(cond['P']):
+        drv = _Drv(ctx, objg, model, kind)
+        drv.kw = dict(base, P=P)
+        drv.tag = {'cond': tag}
+        drv.relational = True
+        usum = sum(abs(v) for v in cond['cov']['slopes']) if cond.get('cov') else 0.0
+        drv.mag = lambda T, P=P, usum=usum: abs(math.log(P)) + usum / (1.9872e-3 * float(T))
+        for T in cond['T']:
+            drv.e1_scalar(float(T))
+        drv.e5_array(cond['arr'])
+        if n == 0:
+            drv.e2_interval(float(cond['ival'][0]), float(cond['ival'][1]))
+            s1 = drv.scalar('SoR', float(cond['T'][0]), 'E3')
+            drv0 = _Drv(ctx, objg, model, kind)
+            drv0.kw = dict(base, P=1.0)
+            s0 = drv0.scalar('SoR', float(cond['T'][0]), 'E3')
+            if s1 is not None and s0 is not None and s1 != s0:
+                ctx.extra['cond_S_depends_on_P'] = ctx.extra.get('cond_S_depends_on_P', 0) + 1
 
 
 # ---------------------------------------------------------------- driver
@@ -1154,6 +1488,10 @@ def run_case(spec, ctx):
         ctx.cls('dtype:%s:%s' % (ent['dtype'], kind))
         drv.dtype_stratum(ent)
 
+    # ---- non-default conditions (gas phase at a pressure, coverage model): relations E3, E5, E2
+    if spec.get('cond'):
+        _conditions(ctx, sp, kind, model, spec['cond'])
+
     # ---- integral forms: E2
     for T1, T2, tag in spec['ivals']:
         ctx.cls(tag)
@@ -1192,3 +1530,7 @@ def run_case(spec, ctx):
             if again[q] is not None:
                 ctx.check('E1', again[q] == first[1][q], {'class': kind, 'q': q, 'what': 'changed_after_use'},
                           T=first[0], first=first[1][q], again=again[q])
+
+    # ---- edits of the live object (last: they change it)
+    if spec.get('edits'):
+        _edits(ctx, obj, kind, sp, spec['edits'])
